@@ -7,7 +7,9 @@ import (
 	"fmt"
 	"github.com/DrmagicE/gmqtt"
 	"math/rand"
+	"sync"
 	"time"
+	"verif/harness/yield"
 
 	"verif/harness/broker"
 	"verif/harness/monitor"
@@ -427,11 +429,115 @@ func emptyRetainedWill(r *monitor.Run, v byte) {
 	r.Nontrivial(fmt.Sprintf("empty-retained-will|%d", v))
 }
 
+// cancelledWillOvertaken: the goroutine of a cancelled delayed will is slow to finish (held at the hand-over point
+// will.before_lock). Meanwhile the client's next connection ends as well and a new delayed will is pending. When
+// the old goroutine finally runs it must not take the new will's bookkeeping with it: a re-attachment before the
+// new delay has passed still cancels the new will. Will delay 3 s, re-attachments within 0.5 s.
+func cancelledWillOvertaken(r *monitor.Run) {
+	yield.Enable(1, false)
+	entered, release := make(chan struct{}), make(chan struct{})
+	var once sync.Once
+	yield.Observe(func(site string) {
+		if site == "will.before_lock" {
+			once.Do(func() {
+				close(entered)
+				select {
+				case <-release:
+				case <-time.After(20 * time.Second):
+				}
+			})
+		}
+	})
+	defer yield.Observe(nil)
+	b, err := broker.Start(broker.Options{})
+	if err != nil {
+		r.Inconclusive(err.Error())
+		close(release)
+		return
+	}
+	defer b.Stop(step)
+	o, err := wire.Dial("obs", b.Addr, mqttx.V5)
+	if err != nil {
+		r.Inconclusive(err.Error())
+		close(release)
+		return
+	}
+	defer o.Close()
+	_, _ = o.Connect(&mqttx.Packet{ClientID: "observer", CleanStart: true}, step)
+	_, _ = o.Subscribe([]mqttx.Sub{{Filter: "will/#", QoS: 1}}, 0, step)
+	e, d := uint32(60), uint32(3)
+	attach := func(name string) (*wire.Client, error) {
+		c, err := wire.Dial(name, b.Addr, mqttx.V5)
+		if err != nil {
+			return nil, err
+		}
+		ack, err := c.Connect(&mqttx.Packet{ClientID: "overtaken", CleanStart: false, Props: &mqttx.Props{SessionExpiry: &e},
+			WillFlag: true, WillTopic: "will/overtaken", WillPayload: []byte("will-overtaken"), WillQoS: 1, WillProps: &mqttx.Props{WillDelay: &d}}, step)
+		if err != nil || ack.Code != 0 {
+			c.Close()
+			return nil, fmt.Errorf("connect: %v %v", ack, err)
+		}
+		return c, nil
+	}
+	closed := func(c *wire.Client) bool {
+		from := b.Log.Len()
+		c.Close()
+		_, ok := b.Log.Wait(from, func(ev broker.Event) bool { return ev.Kind == "OnClosed" && ev.Client == "overtaken" }, step)
+		return ok
+	}
+	c1, err := attach("c1")
+	if err != nil || !closed(c1) { // first will pending
+		r.Inconclusive(fmt.Sprintf("cancelledWillOvertaken: first connection: %v", err))
+		close(release)
+		return
+	}
+	c2, err := attach("c2") // cancels the first will: its goroutine is held at will.before_lock
+	if err != nil {
+		r.Inconclusive(err.Error())
+		close(release)
+		return
+	}
+	select {
+	case <-entered:
+	case <-time.After(step):
+		r.Inconclusive("cancelledWillOvertaken: the cancelled will never reached will.before_lock")
+		close(release)
+		return
+	}
+	if !closed(c2) { // second will pending
+		r.Inconclusive("cancelledWillOvertaken: OnClosed of the second connection not observed")
+		close(release)
+		return
+	}
+	close(release) // the old goroutine finishes now
+	time.Sleep(200 * time.Millisecond)
+	t0 := time.Now()
+	c3, err := attach("c3") // re-attached long before the 3 s delay of the second will has passed
+	if err != nil {
+		r.Inconclusive(err.Error())
+		return
+	}
+	defer c3.Close()
+	r.Eval(1)
+	r.Count("cancelled_will_overtaken_cases", 1)
+	if time.Since(t0) > 1500*time.Millisecond {
+		r.Inconclusive("cancelledWillOvertaken: re-attachment took too long")
+		return
+	}
+	if _, err := o.WaitPublish(0, func(p *mqttx.Packet) bool { return string(p.Payload) == "will-overtaken" }, 4500*time.Millisecond); err == nil {
+		r.Violation("will.published_but_suppressed:stale_cancelled_will", "the client re-attached 0.2 s after its connection ended (will delay 3 s) and the will was published all the same: the late goroutine of an earlier, cancelled will had removed the pending will's entry", nil)
+		return
+	}
+	r.Nontrivial("cancelled-will-overtaken")
+}
+
 // Run is the entry point.
 func Run(r *monitor.Run) {
 	for _, v := range []byte{4, 5} {
 		emptyRetainedWill(r, v)
 	}
+	// (alone: the yield observer is process-wide, another case's will goroutine would be held instead)
+	cancelledWillOvertaken(r)
 	cs := allCases(r.Rand("cases"), r.Quick())
 	r.Parallel(len(cs), 32, func(i int) {
 		c := cs[i]
